@@ -64,6 +64,45 @@ def coqchk_axioms(pid):
             unsafe.append(what + ": " + mm.group(1).strip())
     return r.returncode, axs, unsafe, r.stdout[-800:]
 
+PINNED = os.path.join(COQ, "Properties", "PINNED.json")
+def printed_statements(pid, thms):
+    """the statement of every property theorem as Coq prints it (`Check @name` at unlimited width), normalised and hashed"""
+    import hashlib
+    body = ("From SF.Properties Require Import %s.\nSet Printing Width 1000000.\nSet Printing Depth 1000000.\n" % pid) + "".join("Check @%s.\n" % t for t in thms)
+    (rc, txt), = run_coq_shards("statements_" + pid, [body])
+    out = {}
+    if rc != 0:
+        return None, txt[-600:]
+    names = "|".join(re.escape(t) for t in thms)
+    for m in re.finditer(r"^@?(%s)\s*\n?\s+: (.*?)(?=^@?(?:%s)\s*\n?\s+: |\Z)" % (names, names), txt, re.S | re.M):
+        norm = " ".join(m.group(2).split())
+        out[m.group(1)] = {"sha256": hashlib.sha256(norm.encode()).hexdigest(), "chars": len(norm), "head": norm[:160]}
+    return out, ""
+
+def check_pinned(pid, thms):
+    """every theorem's printed statement must be the committed one (coq/Properties/PINNED.json, written by `python3 -m vlib.proofs --pin`):
+    about 100 generated theorems are stated as `ltac:(type of lemma)` because their printed statement does not re-parse, so nothing in the
+    .v file itself would notice a weakened lemma; this does."""
+    import json as _json
+    if not os.path.exists(PINNED):
+        return [("pinned-statements", "coq/Properties/PINNED.json is missing")], 0
+    pinned = _json.load(open(PINNED)).get(pid, {})
+    now, err = printed_statements(pid, thms)
+    if now is None:
+        return [("pinned-statements", "Check failed: " + err)], 0
+    broken = []
+    for t in thms:
+        if t not in pinned:
+            broken.append((t, "theorem %s has no pinned statement (re-pin after reviewing it: python3 -m vlib.proofs --pin)" % t))
+        elif t not in now:
+            broken.append((t, "statement of %s could not be printed" % t))
+        elif now[t]["sha256"] != pinned[t]["sha256"]:
+            broken.append((t, "the statement of %s is no longer the pinned one (now: %s...)" % (t, now[t]["head"])))
+    for t in pinned:
+        if t not in thms:
+            broken.append((t, "pinned theorem %s has disappeared from Properties/%s.v" % (t, pid)))
+    return broken, len(now)
+
 def check_proofs(pid, tier="quick"):
     res = {"coverage": {}, "assumptions": [], "broken": []}
     thms = theorems_of(pid)
@@ -95,6 +134,9 @@ def check_proofs(pid, tier="quick"):
             if not any(ax.endswith(k) or k.endswith(ax) for k in ALLOWED_AXIOMS):
                 res["broken"].append(("axiom", "theorem of %s depends on non-allowlisted axiom %s" % (pid, ax)))
         discharged = len(thms)
+        pb, npinned = check_pinned(pid, thms)
+        res["broken"] += pb
+        res["coverage_pinned"] = npinned
     res["coverage"] = {
         "obligations": len(thms), "discharged": discharged,
         "theorems": thms,
@@ -102,6 +144,7 @@ def check_proofs(pid, tier="quick"):
         "trusted_base": ["Coq 8.16.1 kernel incl. vm_compute", "hand-written model coq/Models.v (validated by the correspondence check, not verified)",
                          "harness/src/ex.rs exact scalar and surrogates", "rustc/cargo"] + ["axiom " + a for a in sorted(axioms)],
         "axioms_reported": sorted(axioms),
+        "statements_compared_with_pinned": res.pop("coverage_pinned", 0),
     }
     res["assumptions"] = ["theorems are about the hand-written model; the tie to /repo is the correspondence on this run's cases"]
     if tier == "thorough" and ok:
@@ -115,3 +158,17 @@ def check_proofs(pid, tier="quick"):
         for u in unsafe:
             res["broken"].append(("unsafe", "coqchk: " + u))
     return res
+
+
+if __name__ == "__main__":
+    import sys, json
+    if "--pin" in sys.argv:
+        allp = {}
+        for f in sorted(glob.glob(os.path.join(COQ, "Properties", "C*.v"))):
+            pid = os.path.basename(f)[:-2]
+            thms = theorems_of(pid)
+            now, err = printed_statements(pid, thms)
+            assert now is not None and len(now) == len(thms), (pid, err, len(now or {}), len(thms))
+            allp[pid] = now
+            print(pid, len(now), "statements pinned")
+        json.dump(allp, open(PINNED, "w"), indent=0, sort_keys=True)
